@@ -119,6 +119,9 @@ func RunC14(t *testing.T, seed uint64) *Result {
 	tickEvery := Pick(r, []time.Duration{1 * ms, 7 * ms, 500 * ms})
 	gapMax := Pick(r, []time.Duration{0, 1 * ms, 20 * ms})
 	judged := 0
+	// select statements with several ready cases choose by the run's seed, as in RunPlan
+	simSelectState = NewRng(seed, "select").U64() | 1
+	defer func() { simSelectState = 0 }()
 	func() {
 		defer func() {
 			if rec := recover(); rec != nil {
